@@ -127,6 +127,7 @@ func (db *DB) newMem(n int) (mem *memDB, err error) {
 		return
 	}
 
+	verifPoint("newmem:before-lock")
 	db.memMu.Lock()
 	defer db.memMu.Unlock()
 
@@ -197,6 +198,7 @@ func (db *DB) getFrozenMem() *memDB {
 
 // Drop frozen memdb; assume that frozen memdb isn't nil.
 func (db *DB) dropFrozenMem() {
+	verifPoint("dropfrozen:before-lock")
 	db.memMu.Lock()
 	if err := db.s.stor.Remove(db.frozenJournalFd); err != nil {
 		db.logf("journal@remove removing @%d %q", db.frozenJournalFd.Num, err)
